@@ -3,17 +3,17 @@ package rules
 func init() {
 	reg("C09", &PropSpec{
 		Rules:       []Rule{r("J1", RuleJ1), r("ID1", RuleID1), r("ID2", RuleID2), r("X1", RuleX1), r("TG", RuleTG), r("M1", RuleM1), r("D4", RuleD4), r("RV1", RuleRV1), r("TI1", RuleTI1)},
-		Explanation: "Decided: the text form of each structured map key is injective (J1: one Sprintf with at most one free-form operand; today JsonRpcInteractionId has two - known finding F12); every interaction is stored under the id it was built from and copies id/protocol/method/path from it (ID1); serialisation switches list every declared notation/method so serialising an accepted catalog has no failure arm a declared constant reaches (X1); tags and interactions are registered together, tag names come from members of the Tags collection, no interaction is left without a tag (TG); every model field is serialised (M1); ordered collections serialise in insertion order with one entry per key (D4); the validation stage checks every response, not a chosen one (RV1); Title() returns Info.Title itself (TI1). Not decided: UTF-8 validity of names, equality of indented and compact forms (encoding/json), existence of every used type beyond the library's own rejection.",
+		Explanation: "Decided: the text form of each structured map key is injective (J1: one Sprintf with at most one free-form operand; today JsonRpcInteractionId has two - known finding F12); every interaction is stored under the id it was built from and copies id/protocol/method/path from it (ID1); serialisation switches list every declared notation/method so serialising an accepted catalog has no failure arm a declared constant reaches (X1); tags and interactions are registered together, tag names come from members of the Tags collection, no interaction is left without a tag (TG); every model field is serialised (M1); ordered collections serialise in insertion order with one entry per key (D4); the validation stage checks every response, not a chosen one (RV1); Title() returns Info.Title itself (TI1). Not decided: UTF-8 validity of names, equality of indented and compact forms (encoding/json), existence of every used type beyond the library's own rejection. MarshalText of every interaction id is []byte(String()) of its receiver (ID2).",
 		Trusted:     trustedCommon,
 	})
 	reg("C19", &PropSpec{
 		Rules:       []Rule{r("TG", RuleTG), r("H1", RuleH1), r("TP1", RuleTP1), r("R3", RuleR3), r("R4", RuleR4), r("TN1", RuleTN1)},
-		Explanation: "Decided: sibling agreement of the two interaction creators with the tag resolver (same id, every name appended, no exit between registering and storing), tag names only from members of the Tags collection, at least one tag per interaction (TG1-3); declared tags are unique and the automatic path tag is reused, never duplicated (H1); the tag chooser consults its three sources in the stated precedence: own Tags child, else the enclosing URL's Tags, else the path tag (TP1, order of the source tests in the CFG). Not decided: injectivity of the automatic tag name over all strings, titles.",
+		Explanation: "Decided: sibling agreement of the two interaction creators with the tag resolver (same id, every name appended, no exit between registering and storing), tag names only from members of the Tags collection, at least one tag per interaction (TG1-3); declared tags are unique and the automatic path tag is reused, never duplicated (H1); the tag chooser consults its three sources in the stated precedence: own Tags child, else the enclosing URL's Tags, else the path tag (TP1, order of the source tests in the CFG). Not decided: injectivity of the automatic tag name over all strings, titles. A hoisted method keeps no Parent (R4, R3); the automatic tag name is injective on all first segments - byte-wise homomorphism whose images are a uniquely decodable code (TN1).",
 		Trusted:     trustedCommon,
 	})
 	reg("C04", &PropSpec{
 		Rules:       []Rule{r("K1", RuleK1), r("M1", RuleM1), r("D4", RuleD4), r("K2", RuleK2), r("ID1", RuleID1), r("ID2", RuleID2), r("X1", RuleX1), r("R3", RuleR3), r("R4", RuleR4), r("H3", RuleH3), r("K2p", RuleK2p), r("TW1", RuleTW1)},
-		Explanation: "Whole-document equality with a model is not statically decidable. Decided necessary conditions: every directive kind has a consumer (K1: a kind without one is silently dropped); every field of the catalog model is serialised (M1); collections keep and serialise source order (D4); every directive of the table can be spelled to the scanner and nothing else can (K2); interactions are stored under the id they were built from (ID1); total serialisation switches (X1). Not decided: which interaction a child attaches to (C06), that values are copied unchanged, 'nothing else'.",
+		Explanation: "Whole-document equality with a model is not statically decidable. Decided necessary conditions: every directive kind has a consumer (K1: a kind without one is silently dropped); every field of the catalog model is serialised (M1); collections keep and serialise source order (D4); every directive of the table can be spelled to the scanner and nothing else can (K2); interactions are stored under the id they were built from (ID1); total serialisation switches (X1). Not decided: which interaction a child attaches to (C06), that values are copied unchanged, 'nothing else'. Also decided: key text == id text (ID2), no stale pre-walk value in the resolver (R3), a directive sits in exactly one place of the tree (R4), once-only slots are tested on themselves (H3), every descent into Children is unconditional up to kind tests (TW1), the description look-ahead agrees with the keyword set (K2p).",
 		Trusted:     trustedCommon,
 	})
 }
